@@ -200,7 +200,22 @@ fn plant(b: &mut Built, ch: &mut Ch) -> Plan {
         // (where no reset construct is planted:) the first statement is
         // `let dq = ((random(DIV_BOUND)) / 0);` - it cannot be evaluated, and its dividend is
         // evaluated all the same: one error item, one draw; the caller goes on
-        b.prog.stmts.insert(0, Stmt::Let("dq".into(), Expr::Group(Box::new(Expr::bin(BinOp::Div, Expr::Group(Box::new(Expr::Random(Box::new(Expr::lit(DIV_BOUND))))), Expr::lit(0))))));
+        // (one time in two it is a row instead: `(random(DIV_BOUND))` in its first column, `(7 / 0)` in its second - the
+        // draw is made, the row fails afterwards, and the draw stays made: the next one is the generator's next)
+        if ch.chance(1, 2) {
+            let id = b.prog.row_count();
+            let mut es: Vec<Entry> = vec![
+                Entry::Paren(Expr::Random(Box::new(Expr::lit(DIV_BOUND)))),
+                Entry::Paren(Expr::bin(BinOp::Div, Expr::lit(7), Expr::lit(0))),
+                Entry::Num(0, Radix::Dec),
+            ];
+            for c in cols.iter().skip(3) {
+                es.push(if c.role == ColRole::ExpectedOnly { Entry::X(true) } else { Entry::Num(0, Radix::Dec) });
+            }
+            b.prog.stmts.insert(0, Stmt::Row(id, es));
+        } else {
+            b.prog.stmts.insert(0, Stmt::Let("dq".into(), Expr::Group(Box::new(Expr::bin(BinOp::Div, Expr::Group(Box::new(Expr::Random(Box::new(Expr::lit(DIV_BOUND))))), Expr::lit(0))))));
+        }
         plan.failing_division = true;
     } else if which >= 4 {
         // (or, instead:) the first statement is `let hq = <template>;` where the template's draws are known whatever
@@ -478,13 +493,13 @@ impl Property for C17 {
             let n = all.iter().filter(|(b, _)| *b == DIV_BOUND as i64).count();
             out.class("planted-failing-division-checked");
             if !skip_first {
-                out.fail("c17:division-by-zero-not-an-error", format!("the program starts with `let dq = ((random({DIV_BOUND})) / 0);`: the first item must be an error item, got {:?}", real.items.first().map(|i| i.short())));
+                out.fail("c17:division-by-zero-not-an-error", format!("the program starts with `let dq = ((random({DIV_BOUND})) / 0);` (or a row `(random({DIV_BOUND})) (7 / 0) ..`): the first item must be an error item, got {:?}", real.items.first().map(|i| i.short())));
                 return out;
             }
             if n != 1 {
                 out.fail(
                     "c17:dividend-not-evaluated",
-                    format!("the program starts with `let dq = ((random({DIV_BOUND})) / 0);`: both operands of a division are evaluated (the statement fails afterwards), so one draw with that bound is due; the log has {n}"),
+                    format!("the program starts with `let dq = ((random({DIV_BOUND})) / 0);` (or a row `(random({DIV_BOUND})) (7 / 0) ..`): the draw is made before the statement fails, so one draw with that bound is due; the log has {n}"),
                 );
                 return out;
             }
